@@ -39,8 +39,12 @@ impl<S: Runtime + 'static> Loop<'_, S> {
         while super::evaluate_condition(self.env, self.condition_command).await?
             == self.expected_condition
         {
-            self.body.execute(self.env).await?;
+            // Remember the exit status of the body even if it ended with a
+            // divert (e.g. `continue`), so that the loop reports the status of
+            // the last command that was run in the body.
+            let result = self.body.execute(self.env).await;
             self.exit_status = self.env.exit_status;
+            result?;
         }
         Continue(())
     }
